@@ -72,9 +72,8 @@ def denoteBody (env : Env) (callee : Node → Res × Bool) : Prog → Res × Boo
   | .reraise e => (.err e, false)
   | .read _ r k => denoteBody env callee (k (env.refs r))
   | .call n k =>
-    let (r, h) := callee n
-    let (r', h') := denoteBody env callee (k r)
-    (r', h || h')
+    ((denoteBody env callee (k (callee n).1)).1,
+     (callee n).2 || (denoteBody env callee (k (callee n).1)).2)
 
 /-- `inputs` are the values assigned by the user: they are what a (cached) cells returns for
 those arguments whatever the formula; an uncached cells never consults its data. -/
@@ -84,8 +83,8 @@ def denoteN (env : Env) (inputs : Node → Option Val) : Nat → Node → Res ×
     match (if env.cached n.1 then inputs n else none) with
     | some v => (.ok v, false)
     | none =>
-      let (r, h) := denoteBody env (denoteN env inputs d) (env.formula n)
-      (checkNone env n.1 r, h)
+      (checkNone env n.1 (denoteBody env (denoteN env inputs d) (env.formula n)).1,
+       (denoteBody env (denoteN env inputs d) (env.formula n)).2)
 
 /-- the value of element `n` under the current definitions -/
 def Den (env : Env) (inputs : Node → Option Val) (n : Node) (r : Res) : Prop :=
